@@ -321,6 +321,8 @@ structure TruthOk (tr : Truth) : Prop where
   t : TValid tr.t
   nv : 0 ≤ tr.nv ∧ tr.nv ≤ 999999999
   off : -86400 ≤ tr.offv ∧ tr.offv ≤ 86400
+  wd : ((tr.wd.toNat : Nat) : Int) = weekdayOf (dayNumYo tr.Y tr.o)
+  iso : ∃ w, (dateOfYo tr.Y tr.o).iso_week = .ok w ∧ IsoWeek.year w = tr.IY ∧ IsoWeek.week w = tr.IW
 
 /-- **one setter call of the chain**: made with the value's own field it succeeds, the record keeps
 agreeing with the value, and exactly the item's fields become set -/
@@ -513,5 +515,29 @@ theorem step_fields (c : Ctx) (tr : Truth) (hc : CtxTruth c tr) (hok : TruthOk t
     | timezoneOffset => exact offCase set hfc
     | timezoneOffsetColon => exact offCase set hfc
     | _ => exact absurd hp (by simp [provedItem])
+
+/-- **all setter calls of a chain** -/
+theorem chain_fields (c : Ctx) (tr : Truth) (hc : CtxTruth c tr) (hok : TruthOk tr) :
+    ∀ (is : List Item) (tks : List Tok) (p : Parsed) (cr : Carries), TokensOf c is tks →
+    (∀ it ∈ is, provedItem it = true) → (∀ it ∈ is, ItemTruth tr it) → Supplied p tr → Tracks p cr tr.nv →
+    ∃ p', applyAll tks p = .ok p' ∧ Supplied p' tr ∧ Tracks p' (is.foldl carriesItem cr) tr.nv := by
+  intro is
+  induction is with
+  | nil =>
+    intro tks p cr h _ _ hS hT
+    cases tks with
+    | nil => exact ⟨p, rfl, hS, hT⟩
+    | cons _ _ => exact absurd h (by simp [TokensOf])
+  | cons it is ih =>
+    intro tks p cr h hp hx hS hT
+    cases tks with
+    | nil => exact absurd h (by simp [TokensOf])
+    | cons tk tks =>
+      obtain ⟨⟨_, hfc⟩, htl⟩ := h
+      obtain ⟨p1, h1, hS1, hT1⟩ := step_fields c tr hc hok it (hp it List.mem_cons_self)
+        (hx it List.mem_cons_self) tk.set hfc p cr hS hT
+      obtain ⟨p2, h2, hS2, hT2⟩ := ih tks p1 (carriesItem cr it) htl
+        (fun x hx' => hp x (List.mem_cons_of_mem _ hx')) (fun x hx' => hx x (List.mem_cons_of_mem _ hx')) hS1 hT1
+      exact ⟨p2, by simp only [applyAll, h1, h2], hS2, by simpa [List.foldl_cons] using hT2⟩
 
 end Chrono.Proofs.RoundTrip
